@@ -2096,3 +2096,12 @@ ASSUMPTIONS = [
     "known findings F10 / F10b: the deductive and bounded main proofs exclude exactly the scripts that match no template and the claim "
     "names that are not UTF-8; the *.known-* proofs keep the witnesses alive",
 ]
+
+
+# ------------------------------------------------------------------ "value locked in claims and supports reported apart from spendable funds"
+# The balance clause rests on the type Database.txo_to_row stores for an output (txo_type 0 = spendable).  That classification is proved
+# for C15 (contracts/c15.py, proof txo_to_row.classification: a claim / update output is never stored as plain, whatever its payload
+# decodes to); it is registered here as well because a change to it breaks the balance clause of C09.
+from contracts import c15 as _c15      # noqa: E402
+
+proof("C09", "txo_to_row.classification")(type('TxoToRowC09', (_c15.TxoToRow,), {}))
